@@ -16,6 +16,10 @@ fi
 [ "$1" = "--" ] && shift
 if git diff --quiet; then echo "mutant changed nothing"; exit 2; fi
 TIER=${TIER:-quick}
+# results of runs against a mutated tree must never land in /verif/evidence or /verif/replays
+MOUT=/tmp/mutout
+mkdir -p $MOUT/replays $MOUT/harness && cp /verif/known_findings.json $MOUT/ && rm -rf $MOUT/replays/regress && cp -r /verif/replays/regress $MOUT/replays/ && ln -sfn /verif/fuzz $MOUT/fuzz && ln -sfn /verif/harness/target $MOUT/harness/target
+export VERIF_OUT=$MOUT
 for id in "$@"; do
   out=$(cd /verif && timeout ${MUT_TIMEOUT:-300} ./check "$id" $TIER 2>&1)
   code=$?
